@@ -1691,3 +1691,97 @@ def skippable_ids(E, M):
                                 if j["self"] == ty:
                                     out |= j["ids"] | j["also"]
     return out
+
+
+# ====================================================================== R12: AnyAccess conversions preserve the access kind
+def rule_r12(E):
+    """AnyContext::for_work converts a job's declared access with AnyAccess::to_fe / to_be before it becomes the ACL of the
+    job's context view. Each arm of those conversions must rebuild the same Access/AccessType variant (to_fe may map ids of
+    the other domain to None): widening (Variant -> All) hides illegal reads, narrowing makes legal reads panic."""
+    P = E.P
+    findings, obl = [], []
+    fns = [k for k, b in P.bodies.items() if b.get("impl_self") == "fontc::work::AnyAccess" and k.rsplit("::", 1)[1] in ("to_fe", "to_be")]
+    if len(fns) != 2:
+        raise E1Error(f"AnyAccess::to_fe/to_be not found: {fns}")
+    for fn in sorted(fns):
+        name = fn.rsplit("::", 1)[1]
+        bodies = [fn] + [k for k in P.bodies if k.startswith(fn + "::{closure")]
+        n_arms = 0
+        for bk in bodies:
+            body = P.bodies[bk]
+            cfg = CFG(body)
+            dom = cfg.dominators()
+            for bi, blk in enumerate(body["blocks"]):
+                t = blk["t"]
+                if t["t"] != "sw" or blk["cl"]:
+                    continue
+                dl = operand_local(t["o"])
+                src = None
+                for st in blk["s"]:
+                    if st["d"] == [dl] and st["rv"].get("r") == "discr":
+                        src = st["rv"]["p"]
+                if src is None:
+                    continue
+                ty = place_type_simple(body, src, P.adts)
+                if not ty or not (ty.startswith(ACCESS + "<") or ty.startswith(ACCESS_TYPE + "<")):
+                    continue
+                adt = P.adts[ACCESS if ty.startswith(ACCESS + "<") else ACCESS_TYPE]
+                for v, tg in zip(t["v"], t["to"][:-1]):
+                    vname = adt["variants"][int(v)]["name"]
+                    n_arms += 1
+                    built = set()
+                    for b2 in range(cfg.n):
+                        if b2 in dom and tg in dom[b2] and not body["blocks"][b2]["cl"]:
+                            for st in body["blocks"][b2]["s"]:
+                                rv = st["rv"]
+                                if rv.get("r") == "agg" and rv.get("adt") in (ACCESS, ACCESS_TYPE):
+                                    built.add(rv["v"])
+                    allowed = {vname} | ({"None"} if name == "to_fe" else set())
+                    if vname == "Set":
+                        allowed |= {"Set"}
+                    ok = built <= allowed
+                    obl.append({"rule": "R12", "inst": f"AnyAccess::{name}: arm {vname} rebuilds {sorted(built) or ['(via collect)']}", "ok": ok})
+                    if not ok:
+                        findings.append({"rule": "R12", "key": f"R12|{name}|{vname}", "msg": f"AnyAccess::{name} converts {ty.split('<')[0].split('::')[-1]}::{vname} into {sorted(built - allowed)}: the job's context view gets a different access kind than the job declared (a wider one hides illegal reads, a narrower one makes legal reads panic with 'Illegal read')",
+                                         "loc": P.site_loc(bk, t["l"]), "detail": {}})
+        if n_arms < 6:
+            raise E1Error(f"R12: too few Access arms found in {fn} ({n_arms})")
+    return findings, obl
+
+
+def place_type_simple(body, place, adts):
+    ty = body["locals"][place[0]]
+    cur_variant = None
+    for e in place[1:]:
+        if e == "*":
+            while ty.startswith("&"):
+                ty = ty[1:].strip()
+                if ty.startswith("mut "):
+                    ty = ty[4:]
+        elif e.startswith("d:"):
+            cur_variant = e[2:]
+        elif e.startswith("f:"):
+            _, name, adt = e.split(":", 2)
+            a = adts.get(adt)
+            if not a:
+                return None
+            v = None
+            if cur_variant is not None:
+                v = next((x for x in a["variants"] if x["name"] == cur_variant), None)
+            elif len(a["variants"]) == 1:
+                v = a["variants"][0]
+            if v is None:
+                return None
+            f = next((x for x in v["fields"] if x["name"] == name), None)
+            if f is None:
+                return None
+            ty = f["ty"]
+            # generic parameters are not substituted in adt facts: fall back to the local's declared generics
+            cur_variant = None
+        else:
+            return None
+    while ty.startswith("&"):
+        ty = ty[1:].strip()
+        if ty.startswith("mut "):
+            ty = ty[4:]
+    return ty
